@@ -211,6 +211,60 @@ func histories(t *testing.T, shard int) {
 			}
 			return idx
 		}
+		if i%4 == 3 {
+			// directed prefix: a file is obtained, one of its chunks is served to a peer (a record
+			// for another overlay exists), the node restarts without its chunk database, obtains
+			// the file again and finally deletes it
+			f := files[0]
+			step := func(kind string, fi int, arg string, do func() string) {
+				hist = append(hist, opRec{Op: kind, File: fi, Arg: arg})
+				hist[len(hist)-1].Note = do()
+				kinds[kind] = true
+				audit(kind)
+			}
+			errs := func(err error) string {
+				if err != nil {
+					return err.Error()
+				}
+				return ""
+			}
+			if rng.Intn(2) == 0 {
+				step("upload", 0, "", func() string { return errs(w.Upload(f, false)) })
+			} else {
+				step("download", 0, "", func() string { return errs(w.CacheFull(f)) })
+			}
+			lf := f.Leaves[rng.Intn(len(f.Leaves))]
+			peer := boson.NewAddress(append([]byte{0xEE, byte(rng.Intn(3))}, make([]byte, 30)...))
+			step("serve-to-peer", 0, lf[:10], func() string {
+				return errs(w.N.CI.OnChunkTransferred(boson.MustParseHexAddress(lf), f.Root, peer, w.N.Addr))
+			})
+			step("restart-empty-store", -1, "", func() string {
+				restarts++
+				if err := w.RestartWithEmptyStore(); err != nil {
+					t.Fatalf("restart: %v", err)
+				}
+				return ""
+			})
+			step("download", 0, "", func() string { return errs(w.CacheFull(f)) })
+			if rng.Intn(2) == 0 {
+				step("restart", -1, "", func() string {
+					restarts++
+					if err := w.Restart(); err != nil {
+						t.Fatalf("restart: %v", err)
+					}
+					return ""
+				})
+			}
+			step("delete", 0, "", func() string {
+				code := w.N.Delete(f.Root)
+				if code == 200 {
+					deleted[0] = true
+					deletes++
+				}
+				return fmt.Sprint("status=", code)
+			})
+			run.Stat("directed_serve_restart_reobtain_delete_prefixes", 1)
+		}
 		for k := 0; k < 24; k++ {
 			fi := rng.Intn(len(files))
 			f := files[fi]
